@@ -26,6 +26,12 @@ for pid, what in [
         "Exhaustive for the stated alphabet: full reachable closure of (real object graph, monitor state) for every configuration (maxInFlight x timeout x window base incl. sequence 0 and the 2^32 roll-over), plus every op sequence up to depth 5/6 with no abstraction, plus a record-type pass. Decides: " + what + ". Level: bounded-exhaustive model checking of the implementation itself; nothing is sampled.",
         REASM_NOTE, "DESIGN.md §3.3, §5 " + pid)
 
+add("C11", MC, "sched-conc",
+    "stateless DFS over all thread interleavings (controlled cooperative scheduler at lock/atomic/call/callback granularity, whole tree when small else iterative preemption bound) + separate free-running -race pass",
+    "Every schedule of every 2-thread program of 1-2 ops (and 3-thread programs) over {Push(a,mid),Push(a,final),Push(b,mid),Push(a,EOE),Maintain,Close} x maxInFlight 0-2 x passive/re-entrant Stream variants on the real instrumented Reassembler: whole schedule tree where small, otherwise all schedules within the preemption bound (quick 2, thorough 3). Oracle: no deadlock/panic, single-sequence callbacks, at-most-once delivery, every message whose push returned before Close was invoked delivered exactly once, exactly one Close succeeds, Maintain after a returned successful Close errors. Data-race freedom is sampled by a free-running -race pass of the same driver bodies (labelled sampling).",
+    "Trusted: shim fidelity to sync/atomic semantics; sequential consistency; scheduling points at lock/atomic/call/callback granularity are sufficient only for data-race-free code, which the -race pass samples; preemption bound where the tree is large (reported per run).",
+    "DESIGN.md §3.2, §5 C11")
+
 def emit():
     out = {
         "version": 1,
@@ -40,6 +46,7 @@ def emit():
         "engines": [
             {"name": "instr", "path": "engine/instr", "serves_properties": ids, "kind_free_text": "check-time instrumenter: AST rewrite + go build -overlay, no files added to /repo"},
             {"name": "sched", "path": "engine/vshim/sched", "serves_properties": ["C11", "C15", "C17", "C18"], "kind_free_text": "controlled cooperative scheduler + stateless DFS over schedules with iterative preemption bounding"},
+            {"name": "sched-conc", "path": "checks/conc", "serves_properties": ["C11"], "kind_free_text": "schedule exploration of Reassembler driver programs + free-running race pass"},
             {"name": "seqx-reasm", "path": "checks/reasm", "serves_properties": ["C01", "C02", "C03", "C10", "C19"], "kind_free_text": "explicit-state BFS/DFS over op sequences on the real Reassembler with property monitors"},
         ],
         "checks": [],
